@@ -36,6 +36,11 @@ def c03(tier):
             {'kind': 'sym', 'count': 3 if q else 60, 'period': 7, 'every': 40 if q else 25, 'maxev': 40},
         ]
         gcov.update(gcs.run(verdict, wd, tier, plans, vlib.seed()))
+        # register traces under forced collections against the collector-free instruction-level model
+        # (spec/Machine.tla): a reclaimed live object shows at the first instruction that loads it
+        import mach
+        gcov.update(mach.run(verdict, wd, [('alloc', 8 if q else 300, ['gc=1']), ('cont', 8 if q else 300, ['gc=3']),
+                                           ('scope3', 6 if q else 300, ['gc=2'])], vlib.seed()))
 
     def extra(sessions, ends):
         runs = 0
